@@ -38,7 +38,12 @@ class C20(HndBase):
         ka = greet(rng, False, 2)[0] + [ev_wait(120000), ev_msg(KEEPALIVE), ev_wait(120000), ev_msg(KEEPALIVE), ev_wait(120000)]
         live = greet(rng, True, 2)[0] + sum([[ev_wait(119000), ev_msg(INTERESTED), ev_wait(1000)] for _ in range(5)], [])
         never = [ev_wait(360000), ev_wait(1000)]
-        return [self.case(Scenario(o, [5, 3], 11, e, "corpus")) for o, e in [(False, silent), (False, ka), (True, live), (False, never)]]
+        # the connection ends while the manager's command channel (64 slots) is full of this task's own commands: the
+        # KillReq must still get through
+        bursts = [(False, greet(rng, False, 2)[0] + [ev_burst(CHOKE, k, True)]) for k in (63, 64, 65, 70)]
+        bursts += [(True, greet(rng, True, 2)[0] + [ev_burst(INTERESTED, 130, True)]),
+                   (False, greet(rng, False, 2)[0] + [ev_burst(CHOKE, 64, False), ev_close()])]
+        return [self.case(Scenario(o, [5, 3], 11, e, "corpus")) for o, e in [(False, silent), (False, ka), (True, live), (False, never)] + bursts]
 
     def gen(self, rng, tier):
         k = {"quick": 250, "thorough": 5000, "search": 1200}.get(tier, 250)
@@ -47,7 +52,12 @@ class C20(HndBase):
             n = rng.choice([1, 2, 3])
             plens = [rng.choice([1, 5, 9]) for _ in range(n)]
             outgoing = rng.random() < 0.5
-            cases.append(self.case(Scenario(outgoing, plens, rng.randrange(1, 10 ** 6), timing_scenario(rng, n, plens, outgoing), "timing")))
+            ev = timing_scenario(rng, n, plens, outgoing)
+            kind = "timing"
+            if rng.random() < 0.12:       # ... ending with a burst that fills the command channel as the connection ends
+                ev = ev + [ev_burst(rng.choice([CHOKE, INTERESTED, KEEPALIVE]), rng.choice([1, 2, 63, 64, 65, 100]), rng.random() < 0.7)]
+                kind = "timing+burst"
+            cases.append(self.case(Scenario(outgoing, plens, rng.randrange(1, 10 ** 6), ev, kind)))
         return cases
 
 
